@@ -1,7 +1,7 @@
 SPECIFICATION FSpec
 CONSTANTS
   W = 2
-  NK = 4
+  NK = 3
   Poss = {0}
   Tags = {0, 1}
   Es = 8
